@@ -445,31 +445,33 @@ func GenSched(r *lib.Rng, o SchedOpts) *SchedCase {
 	return c
 }
 
-// genUndefChain: one package; a chain t00 <- t01 <- ... whose last target is requested together with an independent one;
-// one target of the chain (not the last) also depends on //p0:nosuch, which the already loaded package does not declare.
-// The error is found by queueTargetAsync (asyncError), and the dependents of the broken target are waiting for it.
+// genUndefChain: the undefined dependency is found by queueTargetAsync (asyncError), not by a parse task, and other
+// targets are waiting for the broken one. Package p0 = {a00, t01}, t01 (last in the BUILD file) depends on //p0:nosuch;
+// p0 is parsed for the requested //p0:a00, so t01 is only activated through its dependents, when p0 is already loaded.
+// Package p1 holds a chain u00 <- u01 <- ... with u00 depending on //p0:t01, and an independent z00; the end of the chain
+// and z00 are requested as well.
 func genUndefChain(r *lib.Rng, o SchedOpts) *SchedCase {
 	c := &SchedCase{Kind: o.Kind, Shape: "chain", Broken: map[string]string{}, Threads: []int{1, 2, 16}[r.Intn(3)], KeepGoing: r.Bool()}
 	if o.ForceKG != 0 {
 		c.KeepGoing = o.ForceKG == 1
 	}
-	n := r.Range(3, 6)
+	a := &SchedTarget{Pkg: "p0", Name: "a00", Sleep: sleepOf(r)}
+	broken := &SchedTarget{Pkg: "p0", Name: "t01", Deps: []string{"//p0:nosuch"}}
+	if r.Bool() {
+		broken.Deps = append(broken.Deps, a.Label())
+		sort.Strings(broken.Deps)
+	}
+	c.Targets = []*SchedTarget{a, broken}
+	n := r.Range(1, 4)
+	prev := broken.Label()
 	for i := 0; i < n; i++ {
-		t := &SchedTarget{Pkg: "p0", Name: fmt.Sprintf("t%02d", i), Sleep: sleepOf(r)}
-		if i > 0 {
-			t.Deps = []string{c.Targets[i-1].Label()}
-		}
-		c.Targets = append(c.Targets, t)
+		u := &SchedTarget{Pkg: "p1", Name: fmt.Sprintf("u%02d", i), Deps: []string{prev}, Sleep: sleepOf(r)}
+		c.Targets = append(c.Targets, u)
+		prev = u.Label()
 	}
-	victim := c.Targets[r.Intn(n-1)]
-	victim.Deps = append(victim.Deps, "//p0:nosuch")
-	other := &SchedTarget{Pkg: "p0", Name: "z00", Sleep: sleepOf(r)}
+	other := &SchedTarget{Pkg: "p1", Name: "z00", Sleep: sleepOf(r)}
 	c.Targets = append(c.Targets, other)
-	for _, t := range c.Targets {
-		sort.Strings(t.Deps)
-	}
-	c.Requested = []string{c.Targets[n-1].Label(), other.Label()}
-	lib.Shuffle(r, c.Requested)
+	c.Requested = []string{a.Label(), prev, other.Label()} // a00 first: its parse task is the one that parses p0
 	return c
 }
 
@@ -974,7 +976,7 @@ func RunSchedProperty(c *lib.Ctx, prop string) {
 	c.Model("From PlzV Require Import Model.Sched.", "Sched.case", "Sched.check")
 	c.Rule("generated repositories of 3-13 genrules in 1-3 packages (chains, diamonds, wide fan-in, random DAGs, independent targets in separate packages) " +
 		"with seeded sleeps, -n 1/2/16, with and without --keep_going, several requested labels; injected: failing commands, a BUILD file with a syntax error or " +
-		"an evaluation error, a dependency on an undeclared target or a missing package, dependency cycles of length 1-3, a rebuild of an already built tree; " +
+		"an evaluation error, a dependency on an undeclared target or a missing package, an undeclared dependency found by queueTargetAsync in an already loaded package with dependents waiting (mostly --keep_going), dependency cycles of length 1-3, a rebuild of an already built tree, a named tool with provides/requires whose source is edited between two invocations; " +
 		"observed: the action log (start/end lines written by the commands), the BuildResult stream (--trace_file), exit status, wall time. " +
 		"distinct = distinct (graph, flags, event sequence); non-trivial = at least two commands ran or a failure was injected")
 	base := Scratch(strings.ToLower(prop))
@@ -1001,22 +1003,25 @@ func RunSchedProperty(c *lib.Ctx, prop string) {
 			{"none", 18, 400, ""}, {"none", 3, 60, "rebuild"}, {"fail", 16, 400, ""}, {"wide", 12, 400, ""},
 			{"syntax", 5, 80, ""}, {"runtime", 5, 80, ""}, {"undefined", 6, 80, ""}, {"missingpkg", 5, 80, ""},
 			{"cycle1", 1, 6, ""}, {"cycle2", 1, 6, ""}, {"cycle3", 1, 6, ""}, {"hang", 1, 2, ""},
-			{"undefchain", 4, 60, ""}, {"namedtool", 1, 20, "edittool"},
+			{"undefchain", 6, 60, ""}, {"namedtool", 1, 20, "edittool"},
 		}
 		if prop == "C04" { // C04 concentrates on successful and partially failing builds, C05 on failures
 			plan[0].quick, plan[2].quick, plan[3].quick = 26, 16, 12
 			plan[4].quick, plan[5].quick, plan[6].quick, plan[7].quick = 2, 2, 3, 2
 			plan[8].quick, plan[9].quick, plan[10].quick, plan[11].quick = 0, 1, 0, 0
 			plan[11].thor = 0
-			plan[12].quick, plan[13].quick = 2, 3
+			plan[12].quick, plan[13].quick = 3, 3
 		} else {
 			plan[0].quick, plan[3].quick = 6, 16
 		}
 		for _, p := range plan {
 			for i := 0; i < c.Scale(p.quick, p.thor); i++ {
 				kg := 0
-				if p.kind == "undefchain" { // alternate: with --keep_going, without
-					kg = 1 + i%2
+				if p.kind == "undefchain" { // mostly with --keep_going (a hang needs it), some without
+					kg = 1
+					if i%3 == 2 {
+						kg = 2
+					}
 				}
 				cases = append(cases, GenSched(c.Rng.Fork(), SchedOpts{Kind: p.kind, Second: p.second, ForceKG: kg}))
 			}
